@@ -548,7 +548,7 @@ def gen_C16(w, tier):
     out = []
     big = tier == "thorough"
     sets = [w.ps["ed"], w.ps["1024"]] + [p for p in w.ps.values() if p.toy and not p.base][:3]
-    n_groups = 30 if not big else 300
+    n_groups = 30 if not big else 100
     for gi in range(n_groups):
         npairs = r.choice([1, 1, 2]) if not big else r.choice([1, 2, 2, 3])
         # sessions: pairs (a, b) that exchange messages, mixed roles / passwords / parameter sets
